@@ -65,6 +65,8 @@ class FakeTransport(object):
     self.delay_every = delay_every
     self.nwrites = 0
     self.wlog = []   # (seq, thread sid, chunk)
+    self.late_armed = {}   # thread sid -> [header reads until the late one, fired in this call]
+    self.late_fired = 0
 
   def write(self, data, timeout_ms=None):
     self.nwrites += 1
@@ -78,9 +80,21 @@ class FakeTransport(object):
     return len(data)
 
   def read(self, length, timeout_ms=None):
+    t0 = self.sim.now
     c = self.d2h.get(None if timeout_ms is None else timeout_ms / 1000.0)
     if c is None:
       raise usb_exceptions.UsbReadFailedError(libusb1.USBError(libusb1.LIBUSB_ERROR_TIMEOUT), 'read timed out')
+    me = core.cur()
+    arm = self.late_armed.get(me.sid if me else -1)
+    if arm is not None and length == 24 and timeout_ms:
+      if arm[0] == 0:
+        # fault: the transfer completes, but only at the very end of the caller's timeout window
+        left = t0 + timeout_ms / 1000.0 - self.sim.now
+        core.sim_sleep(max(left, 0.0) + 0.0005)
+        arm[1] += 1
+        self.late_fired += 1
+        self.sim.event('late_transfer', me.sid if me else -1)
+      arm[0] -= 1
     return c
 
   def close(self):
@@ -264,7 +278,7 @@ class Device(object):
             self.send('CLSE', rid, st['local'])
           if self.tape.chance(150, 'dev_pause'):
             core.sim_sleep(self.tape.pick([0.001, 0.02, 0.2], 'dev_pause_s'))
-      elif idle > 400:
+      elif idle > cfg.get('idle_rounds', 400):
         return
 
 
@@ -284,10 +298,29 @@ def timed(sim, calls, what, timeout_ms, fn):
 def stream_reader(sim, stream, key, plan, out):
   """Reads a stream until it is closed; everything read goes to out[key]['read']."""
   res = out[key]
+  late = plan.get('late')   # (transport, {ordinal of the read call: which of its header reads is late})
+  ncall = 0
+  me = core.cur()
   try:
     while True:
-      d = timed(sim, res['calls'], 'read', plan['timeout_ms'],
-                lambda: stream.read(plan.get('read_len', 0), plan['timeout_ms']))
+      arm = None
+      if late is not None and ncall in late[1]:
+        arm = late[0].late_armed[me.sid] = [late[1][ncall], 0]
+      ncall += 1
+      try:
+        d = timed(sim, res['calls'], 'read', plan['timeout_ms'],
+                  lambda: stream.read(plan.get('read_len', 0), plan['timeout_ms']))
+      except usb_exceptions.AdbTimeoutError:
+        if arm is not None and arm[1]:
+          # the packet arrived as the deadline passed: a time-out of this call is legitimate, the data
+          # must be there for the next call
+          res['calls'][-1] = res['calls'][-1][:3] + ('late_timeout',)
+          sim.event('late_timeout', key)
+          continue
+        raise
+      finally:
+        if arm is not None:
+          late[0].late_armed.pop(me.sid, None)
       if d is None:
         res['end'] = 'none'
         return
